@@ -3,7 +3,7 @@
 # seeded/<name>/checks.txt) against every seeded change, in scratch worktrees; writes seeded/RESULTS.md.
 cd /verif || exit 2
 names="$@"; [ -z "$names" ] && names=$(ls seeded | grep -v RESULTS)
-out=seeded/RESULTS.md
+out=${SEED_OUT:-seeded/RESULTS.md}
 echo "| seeded change | check | tier | result | first report |" > $out.tmp
 echo "|---|---|---|---|---|" >> $out.tmp
 for n in $names; do
